@@ -28,6 +28,11 @@ SIGS = {
     "vrt_stats": (None, [P]),
     "vrt_violation": (c_int, [c_int, P]),
     "vrt_unwritten": (C.c_int64, [c_int, P]),
+    "vrt_profile_clear": (None, []),
+    "vrt_hot_count": (c_int, []),
+    "vrt_hot_pc": (C.c_uint64, [c_int]),
+    "vrt_parks": (C.c_uint64, []),
+    "vrt_shared_cells": (C.c_uint64, []),
     "cimaged11_omp_set_num_threads": (None, [c_int]),
     "cimaged11_omp_get_max_threads": (c_int, []),
 }
